@@ -92,6 +92,36 @@ theorem inv_leave {c : Cfg} (hinj : OneObjectPerSession c) {s : State} (inv : In
     · simp only at a; rw [upd_other _ _ hx] at a
       exact head_erase_ne (inv.critHead x a) (other x hx (Or.inr a))
 
+/-- A thread that is not in the queue issues the cleanup delete (a no-op for the others). -/
+theorem inv_erase_own {c : Cfg} (hinj : OneObjectPerSession c) {s : State} (inv : Inv c s) (t : Nat) (p' : PC)
+    (h0 : s.pc t ≠ .idle) (h0q : ¬ InQ (s.pc t)) (h1 : p' ≠ .idle) (hq : ¬ InQ p') :
+    Inv c { s with pc := upd s.pc t p', queue := s.queue.erase (c.sess (c.obj t)) } := by
+  have nid : ∀ x, upd s.pc t p' x ≠ .idle ↔ s.pc x ≠ .idle := by
+    intro x; by_cases hx : x = t
+    · subst hx; simp [h0, h1]
+    · rw [upd_other _ _ hx]
+  have other : ∀ x, x ≠ t → InQ (s.pc x) → c.sess (c.obj x) ≠ c.sess (c.obj t) := by
+    intro x hx hxq heq
+    have hxi : s.pc x ≠ .idle := by rcases hxq with h | h <;> simp [h]
+    exact hx (inv.local1 x t hxi h0 (hinj _ _ heq))
+  refine ⟨fun t1 t2 a b => inv.local1 t1 t2 ((nid _).mp a) ((nid _).mp b),
+    fun x a => inv.heldOf x ((nid _).mp a), fun o a => ?_, inv.nodup.erase _, fun x a => ?_,
+    fun k hk => ?_, fun x a => ?_⟩
+  · obtain ⟨x, hx, hx'⟩ := inv.heldBy o a
+    exact ⟨x, hx, (nid _).mpr hx'⟩
+  · by_cases hx : x = t
+    · subst hx; simp at a; exact absurd a hq
+    · simp only at a; rw [upd_other _ _ hx] at a
+      exact (List.mem_erase_of_ne (other x hx a)).mpr (inv.inQ x a)
+  · have hk' := (inv.nodup.mem_erase_iff).mp hk
+    obtain ⟨x, hx, hx'⟩ := inv.qOwner k hk'.2
+    have hxt : x ≠ t := by intro h; subst h; exact h0q hx
+    exact ⟨x, by simp only; rw [upd_other _ _ hxt]; exact hx, hx'⟩
+  · by_cases hx : x = t
+    · subst hx; simp at a; exact absurd (Or.inr a) hq
+    · simp only at a; rw [upd_other _ _ hx] at a
+      exact head_erase_ne (inv.critHead x a) (other x hx (Or.inr a))
+
 /-- The deferred `m.lock.Unlock()`. -/
 theorem inv_unlock {c : Cfg} {s : State} (inv : Inv c s) (t : Nat)
     (h0 : s.pc t ≠ .idle) (hq : ¬ InQ (s.pc t)) :
@@ -234,6 +264,13 @@ theorem inv_step {c : Cfg} (hinj : OneObjectPerSession c) {s s' : State} (inv : 
     · rename_i g
       cases h
       exact inv_leave hinj inv t .failing (Or.inl g) (by simp) (by simp [InQ])
+    · cases h
+  | etcdErrorEarly t =>
+    simp only [step] at h
+    split at h
+    · rename_i g
+      cases h
+      exact inv_erase_own hinj inv t .failing (by simp [g]) (by simp [InQ, g]) (by simp) (by simp [InQ])
     · cases h
   | localUnlockFail t =>
     simp only [step] at h
